@@ -10,7 +10,7 @@ from contracts.c05 import KIND
 
 OPTS = [{'useSandT': a, 'use_closed_attrib': b, 'rel': r} for a in (False, True) for b in (False, True) for r in (False, True)]
 SHAPES = ['L', 'C', 'LC', 'CC', 'QQ', 'QL', 'LQC', 'AL', 'CA']
-JOINTS = ['open', 'closed', 'broken']       # continuous open / continuous and closed / one discontinuity
+JOINTS = ['open', 'closed', 'broken', 'broken-closed']   # continuous open / continuous and closed / one discontinuity / discontinuous but ending where it starts
 REVISIT_SHAPES = ['CCCC', 'LCCL', 'QQQQ', 'LQQC']   # closed paths that pass through their start point in the middle
 
 
@@ -62,14 +62,14 @@ def _install_arc_stub(c):
 def build(c, kinds, joints):
     n = len(kinds)
     corner = [c.cplx('V%d' % i) for i in range(n + 1)]
-    if joints in ('closed', 'revisit'):
+    if joints in ('closed', 'revisit', 'broken-closed'):
         corner[n] = corner[0]
     if joints == 'revisit':
         corner[n // 2] = corner[0]
     segs = []
     for i, k in enumerate(kinds):
         s = corner[i]
-        if joints == 'broken' and i == n - 1 and n > 1:
+        if joints in ('broken', 'broken-closed') and i == n - 1 and n > 1:
             s = c.cplx('W')
             c.assume(ops.ne(s, corner[i]))
         e = corner[i + 1]
@@ -118,9 +118,9 @@ def _params(euf):
             ps.append(d)
     for k in SHAPES:
         for j in JOINTS:
-            if j in ('broken', 'closed') and len(k) == 1 and k != 'C':
+            if j in ('broken', 'closed', 'broken-closed') and len(k) == 1 and k != 'C':
                 continue
-            if j == 'broken' and len(k) == 1:
+            if j in ('broken', 'broken-closed') and len(k) == 1:
                 continue
             for o in OPTS:
                 if euf and o['rel']:
